@@ -50,8 +50,10 @@ def run(tier, seed):
     run.add_tlc(r1, "Catalogue: <=3 restarts, <=4 steps, plain name, exhaustive")
     r2 = E.run_catalogue(2, 3, names=["my_restart_run", "arange_rl"], layouts=[("onefile", "grouped"), ("proc", "ungrouped")])
     run.add_tlc(r2, "Catalogue: names containing words of the catalogue format, <=2 restarts, <=3 steps, exhaustive")
+    r2b = E.run_catalogue(2, 2, names=["bbh"], layouts=[("onefile", "grouped"), ("proc", "ungrouped")], nlevels=(12,))
+    run.add_tlc(r2b, "Catalogue: 12 refinement levels (two-digit level numbers), <=2 restarts, <=2 steps, exhaustive")
     states = []
-    for r in (r1, r2):
+    for r in (r1, r2, r2b):
         if r.violated:
             raise RuntimeError("Catalogue spec violates " + r.violated)
         states += [p for p in r.printed if "hist" in p]
@@ -66,8 +68,11 @@ def run(tier, seed):
     states = list(keyed.values())
     cap = 2500 if tier == "quick" else 20000
     run.info["behaviours_enumerated"] = len(states)
+    deep = [s for s in states if s["nlev"] > 2]
+    states = [s for s in states if s["nlev"] <= 2]
     if len(states) > cap:
         states = states[:: len(states) // cap + 1]      # replay a 1-in-k subsample of the enumerated behaviours
+    states += deep[:: (3 if tier == "quick" else 1)]
     jobs = [(s, i) for i, s in enumerate(states)]
     res = E.pmap(E.check_catalogue, jobs)
     for (s, _), fnds in zip(jobs, res):
@@ -82,7 +87,7 @@ def run(tier, seed):
         s = states[len(states) // 2]
         run.sample({"name": s["name"], "layout": s["layout"], "levels": s["nlev"], "steps": s["hist"], "scan": s["scan"]})
     run.rule = ("every behaviour of Catalogue.tla (directories growing by restarts of three shapes incl. single-iteration restarts and level-dependent "
-                "strides; calls iterations(skip_last)/read_iterations()/get_content(restart, overwrite) interleaved with new restarts; simulation names "
+                "strides, 1, 2 or 12 refinement levels, variable names with brackets; calls iterations(skip_last)/read_iterations()/get_content(restart, overwrite) interleaved with new restarts; simulation names "
                 "containing 'restart', 'arange', 'rl') is replayed on generated directories: returned structures = Scan of what is on disk, files parse "
                 "back to them, repeated calls are identities, overall = union of the restarts, and the incremental catalogue equals a fresh scan of "
                 "a copy; name/key parsing inverted over enumerated component alphabets. Non-trivial = >= 2 restarts or >= 2 calls")
